@@ -106,3 +106,20 @@ Proof. exact broadcast_shape_comm. Qed.
 Theorem C11_broadcast_reflexive : forall a, broadcast_shape a a = Some a.
 Proof. exact broadcast_shape_refl. Qed.
 Print Assumptions C11_broadcast_rule.
+
+(* three-way broadcasting (where): grouping the operands differently gives the same result shape, or fails the same way *)
+Theorem C11_broadcast_associative : forall a b c, bshape_opt (bshape a b) (Some c) = bshape_opt (Some a) (bshape b c).
+Proof. exact bshape_assoc. Qed.
+(* concat along an axis: every element comes from the operand whose block contains its position, at the offset inside the
+   block; shape = the operands' shape with the axis extents added up (any number of operands, any rank) *)
+From ND Require Import Ndx.ConcatFacts.
+Theorem C11_concat_elements : forall (A : Type) (ts : list (tensor A)) ax d r, concat_all ts ax d = GetItem.Done r ->
+  ts <> [] /\
+  (forall k, k <> ax -> nth k (shape r) 0%nat = nth k (shape (hd r ts)) 0%nat) /\
+  ((ax < length (shape (hd r ts)))%nat -> nth ax (shape r) 0%nat = fold_right Nat.add 0%nat (map (fun t => nth ax (shape t) 0%nat) ts)) /\
+  forall idx, Tensor.in_bounds (shape r) idx -> (ax < length (shape (hd r ts)))%nat ->
+    let '(k, o) := locate (map (fun t => nth ax (shape t) 0%nat) ts) (nth ax idx 0%nat) in
+    (k < length ts)%nat /\ forall dflt, get r idx d = get (nth k ts dflt) (replace_nth ax o idx) d.
+Proof. exact @concat_all_spec. Qed.
+Print Assumptions C11_concat_elements.
+Print Assumptions C11_broadcast_associative.
